@@ -951,6 +951,58 @@ pub proof fn axiom_prim_sizes()
 //@end
 
 
+//@item @expanded props=C04,C06 name=Range::TypeHash <<impl<Idx: ZeroCopy + TypeHash> TypeHash for core::ops::Range<Idx> {>>
+//@  body_prefix
+//@|    open spec fn th() -> Seq<HItem> { seq![HItem::Str("core :: ops :: Range"@)] + Idx::th() }
+//@  sub <<fn type_hash(>>
+//@  impl_arg
+//@end
+
+//@item @expanded props=C04,C06 name=RangeTo::TypeHash <<impl<Idx: ZeroCopy + TypeHash> TypeHash for core::ops::RangeTo<Idx> {>>
+//@  body_prefix
+//@|    open spec fn th() -> Seq<HItem> { seq![HItem::Str("core :: ops :: RangeTo"@)] + Idx::th() }
+//@  sub <<fn type_hash(>>
+//@  impl_arg
+//@end
+
+//@item @expanded props=C04,C06 name=Range::AlignHash <<impl<Idx: ZeroCopy + AlignHash> AlignHash for core::ops::Range<Idx> {>>
+//@  replace <<crate::traits::std_align_hash::<Idx>>> <<std_align_hash::<Idx, _>>>
+//@  body_prefix
+//@|    /// two index fields laid out one after the other
+//@|    open spec fn ah(off: nat) -> Seq<HItem> { std_ah::<Idx>(off) + std_ah::<Idx>(std_ah_off::<Idx>(off)) }
+//@|    open spec fn ah_off(off: nat) -> nat { std_ah_off::<Idx>(std_ah_off::<Idx>(off)) }
+//@|    open spec fn ah_fits(off: nat) -> bool { std_ah_off::<Idx>(std_ah_off::<Idx>(off)) <= usize::MAX && std_ah_off::<Idx>(off) <= usize::MAX }
+//@  sub <<fn align_hash(>>
+//@  impl_arg
+//@end
+
+//@item @expanded props=C04,C06 name=tuple3::AlignHash <<impl<T: AlignHash> AlignHash for (T, T, T) {>>
+//@  body_prefix
+//@|    open spec fn ah(off: nat) -> Seq<HItem> { T::ah(off) + T::ah(T::ah_off(off)) + T::ah(T::ah_off(T::ah_off(off))) }
+//@|    open spec fn ah_off(off: nat) -> nat { T::ah_off(T::ah_off(T::ah_off(off))) }
+//@|    open spec fn ah_fits(off: nat) -> bool { T::ah_fits(off) && T::ah_fits(T::ah_off(off)) && T::ah_fits(T::ah_off(T::ah_off(off))) }
+//@  sub <<fn align_hash(>>
+//@  impl_arg
+//@end
+
+//@item @expanded props=C04,C06 name=tuple4::AlignHash <<impl<T: AlignHash> AlignHash for (T, T, T, T) {>>
+//@  body_prefix
+//@|    open spec fn ah(off: nat) -> Seq<HItem> { T::ah(off) + T::ah(T::ah_off(off)) + T::ah(T::ah_off(T::ah_off(off))) + T::ah(T::ah_off(T::ah_off(T::ah_off(off)))) }
+//@|    open spec fn ah_off(off: nat) -> nat { T::ah_off(T::ah_off(T::ah_off(T::ah_off(off)))) }
+//@|    open spec fn ah_fits(off: nat) -> bool { T::ah_fits(off) && T::ah_fits(T::ah_off(off)) && T::ah_fits(T::ah_off(T::ah_off(off))) && T::ah_fits(T::ah_off(T::ah_off(T::ah_off(off)))) }
+//@  sub <<fn align_hash(>>
+//@  impl_arg
+//@end
+
+//@item @expanded props=C04,C06 name=tuple6::AlignHash <<impl<T: AlignHash> AlignHash for (T, T, T, T, T, T) {>>
+//@  body_prefix
+//@|    open spec fn ah(off: nat) -> Seq<HItem> { T::ah(off) + T::ah(T::ah_off(off)) + T::ah(T::ah_off(T::ah_off(off))) + T::ah(T::ah_off(T::ah_off(T::ah_off(off)))) + T::ah(T::ah_off(T::ah_off(T::ah_off(T::ah_off(off))))) + T::ah(T::ah_off(T::ah_off(T::ah_off(T::ah_off(T::ah_off(off)))))) }
+//@|    open spec fn ah_off(off: nat) -> nat { T::ah_off(T::ah_off(T::ah_off(T::ah_off(T::ah_off(T::ah_off(off)))))) }
+//@|    open spec fn ah_fits(off: nat) -> bool { T::ah_fits(off) && T::ah_fits(T::ah_off(off)) && T::ah_fits(T::ah_off(T::ah_off(off))) && T::ah_fits(T::ah_off(T::ah_off(T::ah_off(off)))) && T::ah_fits(T::ah_off(T::ah_off(T::ah_off(T::ah_off(off))))) && T::ah_fits(T::ah_off(T::ah_off(T::ah_off(T::ah_off(T::ah_off(off)))))) }
+//@  sub <<fn align_hash(>>
+//@  impl_arg
+//@end
+
 // ---- arrays and tuples -----------------------------------------------------------
 
 // tuple MaxSizeOf impls use the generic std::cmp::max, for which no precise
